@@ -3,6 +3,7 @@ SPECIFICATION Spec
 CONSTANTS
   Order = "code"
   D1Fixed = TRUE
+  HopSafe = TRUE
   CLNormalised = FALSE
   BigBodies = FALSE
   Families = {"mini"}
